@@ -151,3 +151,39 @@ def run_unit(name, run, max_rounds=12, max_paths=None):
     ur.dummy_conversions = res.dummy_conversions
     ur.wall_s = time.time() - t0
     return ur
+
+
+class SeqTensor(st.Tensor):
+    """a 1-D real tensor of symbolic length whose elements are an uninterpreted
+    function of the index (time grids, sample weights, ...)"""
+
+    def __init__(self, name, length, dtype=None, requires_grad=False, increasing=False, sign=1, fn=None):
+        st.Tensor.__init__(self, "opq", ("seq", name, sign), (length,), dtype or st.float64, requires_grad=requires_grad,
+                           name=name)
+        self._fn = fn if fn is not None else z3.Function("seq<%s>" % name, z3.IntSort(), z3.RealSort())
+        self._increasing = increasing
+        self._sign = sign
+
+    def elem(self, i):
+        ie = i.e if isinstance(i, SInt) else z3.IntVal(i)
+        if self._increasing:
+            # strictly increasing grid: the quantified fact is instantiated at the indices that are read
+            c = ctx()
+            c.assume(self._fn(ie - 1) < self._fn(ie))
+            c.assume(self._fn(ie) < self._fn(ie + 1))
+        v = self._fn(ie)
+        return st.Tensor("sc", alg.Sc(v if self._sign > 0 else -v), (), self.dtype)
+
+    def __neg__(self):
+        return SeqTensor(self.name, self._shape[0], self.dtype, increasing=False, sign=-self._sign, fn=self._fn)
+
+    def pv_len(self):
+        return self._shape[0]
+
+    def __getitem__(self, i):
+        n = self._shape[0]
+        if isinstance(i, int) and i < 0:
+            i = n + i
+        if isinstance(i, (int, SInt)):
+            return self.elem(i)
+        return st.Tensor.__getitem__(self, i)
